@@ -39,7 +39,7 @@ size_t decodeNameFromRdata_contract(const uint8_t *messageData, size_t messageSi
 __CPROVER_requires(IORA_TRUE && iora_exc == EXC_NONE && messageSize <= DN_MAX_MSG && __CPROVER_is_fresh(messageData, messageSize))
 __CPROVER_requires(rdataSize <= 65535 && __CPROVER_is_fresh(rdata, rdataSize) && rdataStart <= messageSize && rdataSize <= messageSize - rdataStart)
 __CPROVER_requires(__CPROVER_is_fresh(name, sizeof(*name)) && G_msg_size == messageSize)
-__CPROVER_assigns(iora_exc, *name)
+__CPROVER_assigns(iora_exc, *name, G_name_end)
 /* N1 the returned RDATA offset: unchanged when there is nothing to decode, else inside RDATA (one past it only when a
  *    pointer octet is the last RDATA octet: the callers compare before they read) */
 __CPROVER_ensures(iora_exc == EXC_NONE ==> (__CPROVER_return_value == rdataOffset || __CPROVER_return_value <= rdataSize + 1))
@@ -57,7 +57,7 @@ void h_rdname(void)
   const uint8_t *m; size_t ms, rs, ro, rn; const uint8_t *rd; iora_ostr *name;
   size_t r = decodeNameFromRdata(m, ms, rs, ro, rd, rn, name);
   IORA_CANARY("h_rdname: returns");
-  if (iora_exc) { IORA_CANARY("h_rdname: rejected"); } else if (r > ro + 2) { IORA_CANARY("h_rdname: literal name"); }
+  if (iora_exc) { IORA_CANARY("h_rdname: rejected"); } else if (r > 2 && r - 2 > ro) { IORA_CANARY("h_rdname: literal name"); }
 }
 
 /* ------------------------------------------------------------------------------------------------------------------
@@ -92,10 +92,12 @@ void h_header(void)
 size_t parseQuestion_contract(const uint8_t *data, size_t offset, size_t size, DnsQuestion *question)
 __CPROVER_requires(IORA_TRUE && iora_exc == EXC_NONE && size <= DN_MAX_MSG && offset <= size && __CPROVER_is_fresh(data, size))
 __CPROVER_requires(__CPROVER_is_fresh(question, sizeof(*question)) && G_msg_size == size)
-__CPROVER_assigns(iora_exc, *question)
-/* Q1 */ __CPROVER_ensures(iora_exc == EXC_NONE ==> (__CPROVER_return_value <= size && __CPROVER_return_value >= offset + 4))
-/* Q2 QTYPE and QCLASS are the two big-endian 16-bit fields that end the question */
-__CPROVER_ensures(iora_exc == EXC_NONE ==> (question->qtype == U16BE(data, __CPROVER_return_value - 4) && question->qclass == U16BE(data, __CPROVER_return_value - 2)))
+__CPROVER_assigns(iora_exc, *question, G_name_end)
+/* Q1 QNAME (ending at G_name_end) is followed by exactly QTYPE(2) QCLASS(2); the question ends inside the message */
+__CPROVER_ensures(iora_exc == EXC_NONE ==> (__CPROVER_return_value <= size && __CPROVER_return_value == G_name_end + 4 && G_name_end >= offset))
+/* Q2 QTYPE and QCLASS are the big-endian 16-bit fields right after the name */
+__CPROVER_ensures(iora_exc == EXC_NONE ==> question->qtype == U16BE(data, G_name_end))
+__CPROVER_ensures(iora_exc == EXC_NONE ==> question->qclass == U16BE(data, G_name_end + 2))
 /* Q3 */ __CPROVER_ensures(iora_exc == EXC_NONE ==> question->qname.n <= RFC_MAX_TEXT)
 /* Q4 */ __CPROVER_ensures(iora_exc == EXC_NONE || iora_exc == EXC_DnsParseException)
 /* Q5 a question cut off before the end of its fixed fields is a reported error */
@@ -113,9 +115,12 @@ void h_question(void)
 /* ------------------------------------------------------------------------------------------------------------------
  * parseResourceRecord (decodeName and validateRdataSecurity replaced by their contracts). RFC 1035 3.2.1:
  * NAME | TYPE(2) | CLASS(2) | TTL(4) | RDLENGTH(2) | RDATA(RDLENGTH). RS = start of RDATA. */
-#define RR_FIELDS(rr, RS) \
-  ((rr)->type == U16BE(data, (RS) - 10) && (rr)->cls == U16BE(data, (RS) - 8) && (rr)->ttl == U32BE(data, (RS) - 6) \
-   && (rr)->rdlength == U16BE(data, (RS) - 2))
+/* one ensures clause per field (measured: the four fields in ONE clause > 300 s, as four clauses 13 s) */
+#define RR_FIELDS(rr) \
+/* R2a TYPE     */ __CPROVER_ensures(iora_exc == EXC_NONE ==> (rr)->type == U16BE(data, G_name_end)) \
+/* R2b CLASS    */ __CPROVER_ensures(iora_exc == EXC_NONE ==> (rr)->cls == U16BE(data, G_name_end + 2)) \
+/* R2c TTL      */ __CPROVER_ensures(iora_exc == EXC_NONE ==> (rr)->ttl == U32BE(data, G_name_end + 4)) \
+/* R2d RDLENGTH */ __CPROVER_ensures(iora_exc == EXC_NONE ==> (rr)->rdlength == U16BE(data, G_name_end + 8))
 #define RR_PRE \
 __CPROVER_requires(IORA_TRUE && iora_exc == EXC_NONE && size <= DN_MAX_MSG && offset <= size && __CPROVER_is_fresh(data, size)) \
 __CPROVER_requires(__CPROVER_is_fresh(rr, sizeof(*rr)) && G_msg_size == size)
@@ -123,11 +128,12 @@ __CPROVER_requires(__CPROVER_is_fresh(rr, sizeof(*rr)) && G_msg_size == size)
 size_t parseResourceRecord5_contract(const uint8_t *data, size_t offset, size_t size, DnsResourceRecord *rr, size_t *rdataOffset)
 RR_PRE
 __CPROVER_requires(__CPROVER_is_fresh(rdataOffset, sizeof(*rdataOffset)))
-__CPROVER_assigns(iora_exc, *rr, *rdataOffset)
-/* R1 the record ends inside the message, exactly RDLENGTH octets after the start of RDATA, which follows the 10 fixed octets */
-__CPROVER_ensures(iora_exc == EXC_NONE ==> (__CPROVER_return_value <= size && *rdataOffset >= offset + 10 && __CPROVER_return_value == *rdataOffset + rr->rdlength))
+__CPROVER_assigns(iora_exc, *rr, *rdataOffset, G_name_end)
+/* R1 NAME (ending at G_name_end) is followed by the 10 fixed octets, then RDATA; the record ends inside the message exactly
+ *    RDLENGTH octets after the start of RDATA */
+__CPROVER_ensures(iora_exc == EXC_NONE ==> (G_name_end >= offset && *rdataOffset == G_name_end + 10 && __CPROVER_return_value == *rdataOffset + rr->rdlength && __CPROVER_return_value <= size))
 /* R2 fixed fields bit-exact */
-__CPROVER_ensures(iora_exc == EXC_NONE ==> RR_FIELDS(rr, *rdataOffset))
+RR_FIELDS(rr)
 /* R3 RDATA is exactly the RDLENGTH octets at rdataOffset (so [rdataOffset, rdataOffset + rdata.size()) lies inside the message) */
 __CPROVER_ensures(iora_exc == EXC_NONE ==> (rr->rdata.n == rr->rdlength && rr->rdata.p == data + *rdataOffset))
 /* R4 */ __CPROVER_ensures(iora_exc == EXC_NONE ==> rr->name.n <= RFC_MAX_TEXT)
@@ -138,10 +144,10 @@ __CPROVER_ensures((size < 11 || offset > size - 11) ==> iora_exc != EXC_NONE)
 
 size_t parseResourceRecord4_contract(const uint8_t *data, size_t offset, size_t size, DnsResourceRecord *rr)
 RR_PRE
-__CPROVER_assigns(iora_exc, *rr)
-__CPROVER_ensures(iora_exc == EXC_NONE ==> (__CPROVER_return_value <= size && __CPROVER_return_value >= offset + 10 + rr->rdlength))
-__CPROVER_ensures(iora_exc == EXC_NONE ==> RR_FIELDS(rr, __CPROVER_return_value - rr->rdlength))
-__CPROVER_ensures(iora_exc == EXC_NONE ==> (rr->rdata.n == rr->rdlength && rr->rdata.p == data + (__CPROVER_return_value - rr->rdlength)))
+__CPROVER_assigns(iora_exc, *rr, G_name_end)
+__CPROVER_ensures(iora_exc == EXC_NONE ==> (G_name_end >= offset && __CPROVER_return_value == G_name_end + 10 + rr->rdlength && __CPROVER_return_value <= size))
+RR_FIELDS(rr)
+__CPROVER_ensures(iora_exc == EXC_NONE ==> (rr->rdata.n == rr->rdlength && rr->rdata.p == data + (G_name_end + 10)))
 __CPROVER_ensures(iora_exc == EXC_NONE ==> rr->name.n <= RFC_MAX_TEXT)
 __CPROVER_ensures(iora_exc == EXC_NONE || iora_exc == EXC_DnsParseException)
 __CPROVER_ensures((size < 11 || offset > size - 11) ==> iora_exc != EXC_NONE)
